@@ -113,6 +113,7 @@ theorem freshId_w (h : List Tgt) : Pres (W h) freshId :=
 theorem setClosed_w (h : List Tgt) : Pres (W h) setClosed := modA_w h _
 theorem setStopping_w (h : List Tgt) : Pres (W h) setStopping := modA_w h _
 theorem setRestarting_w (h : List Tgt) : Pres (W h) setRestarting := modA_w h _
+theorem clearRestarting_w (h : List Tgt) : Pres (W h) clearRestarting := modA_w h _
 theorem setLoopStop_w (h : List Tgt) (b : Bool) : Pres (W h) (setLoopStop b) := modA_w h _
 theorem setSocketEvent_w (h : List Tgt) (b : Bool) : Pres (W h) (setSocketEvent b) := modA_w h _
 theorem setSockReady_w (h : List Tgt) (b : Bool) : Pres (W h) (setSockReady b) := modA_w h _
@@ -150,7 +151,7 @@ attribute [aesop safe apply (rule_sets := [Wk])] kKill_pres xKill_pres kWaitpid_
   usedWids_pres arbReapLoop_pres registered_pres iterWatchers_pres arbReapProcesses_pres
 attribute [aesop safe apply (rule_sets := [Wk])] LeafK.emit LeafW.popPid LeafW.setObjStopping LeafW.setRc
 attribute [aesop safe apply (rule_sets := [Wk])] runK_w updK_w setStatus_w setWOpt_w trySetNp_w spawnAdopt_w freshId_w setClosed_w
-  setStopping_w setRestarting_w setLoopStop_w setSocketEvent_w setSockReady_w setSlot_w unregister_w clearDone_w emitRep_w
+  setStopping_w setRestarting_w clearRestarting_w setLoopStop_w setSocketEvent_w setSockReady_w setSlot_w unregister_w clearDone_w emitRep_w
   registerNew_w enqueueCallback_w enqueueTopCb_w enqueueCloseCtl_w armFrame_w armTop_w topAddCb_w
 
 macro "wk" : tactic => `(tactic| aesop (rule_sets := [Wk]) (config := { terminal := true, useDefaultSimpSet := false, useSimpAll := false, maxRuleApplications := 3000 }))
